@@ -126,7 +126,7 @@ StwEnd == /\ Is({"STW_END"}) /\ Adv
           /\ UNCHANGED <<ctx, paused, st, scanning, envw, pendingIrq, exited, startedT, registeredT, asked, snap>>
 \* events that carry no state of the projection (parks, loop reads, brackets)
 Other == /\ Is({"SP_PARK", "POLL_PARK", "SP_READ_PAUSED", "POLL_LOOP_READ", "STW_BEGIN",
-               "SPAWNED", "REGISTERING", "UNPARK", "HEAP_LOCKED"}) /\ Adv
+               "SPAWNED", "REGISTERING", "UNPARK", "HEAP_LOCKED", "ENUM_WAIT"}) /\ Adv
          /\ UNCHANGED <<ctx, paused, st, scanning, envw, pendingIrq, exited, bad, startedT, registeredT, asked, snap>>
 
 Next == Publish \/ Retract \/ Dispatch \/ ScanBegin \/ ScanEnd \/ EnvBegin \/ EnvEnd \/ Pause \/ Resume
